@@ -413,7 +413,7 @@ class Runner:
                                 nxt[key] = nxt.get(key, 0) + c * k[i]
                         want = nxt
                 elif kind == "eval1":
-                    at = 2 if max((sum(k) for k in m), default=0) <= 40 else 1  # (1 cannot tell a power from another)
+                    at = 2 if max((sum(k) for k in m), default=0) <= 55 else 1  # (1 cannot tell a power from another)
                     res = p(*([numpy.int64(at) if idx % 2 else at] * nv))
                     scalar_want = sum(c * at ** sum(k) for k, c in m.items())
                 elif kind == "evalpart":
